@@ -894,6 +894,8 @@ def run(tier):
         timed_runs += len(ok_rows)
         if len(ok_rows) > 1 and ok_rows[0][2]:
             timed_worst.append((round(max(b[2] / a[2] for a, b in zip(ok_rows, ok_rows[1:])), 2), r["name"]))
+        if r["status"] == "rejected" and r["name"] in F.MAY_BE_REJECTED:
+            continue  # not C99: rejected by the pinned tree, only measured where a tree accepts it
         if r["status"] not in ("linear", "rec"):
             group = "adjacent_string_literals" if "string_concat" in r["name"] else r["name"]
             R.fail(f"repeat-time:{group}" if r["status"] == "slow" else f"{r['status']}:timed:{r['name']}",
